@@ -164,6 +164,56 @@ def c14n(xml: str) -> bytes:
     return etree.tostring(root[0], method="c14n")
 
 
+# properties whose value is the position of the element in its tree, by definition
+CONTEXTUAL = {"parent", "root", "document_body", "is_bound", "clone", "children", "tail", "text_recursive", "x", "y", "tracked_changes"}
+
+
+def _show(v) -> str:
+    from odfdo import Element
+
+    if isinstance(v, Element):
+        return "E:" + v.serialize()[:200]
+    if isinstance(v, (list, tuple)):
+        return "[" + ",".join(_show(i) for i in list(v)[:8]) + "]"
+    if isinstance(v, dict):
+        return "{" + ",".join(f"{k}:{_show(v[k])}" for k in sorted(v, key=str)[:8]) + "}"
+    return repr(v)[:200]
+
+
+def context_reads(cls, xml: str, alone, rng) -> list:
+    """Every public property of the instance, read on the element parsed alone and on the same element parsed as
+    the SECOND of two instances of its class inside one parent (the first built with other arguments)."""
+    from odfdo import Element
+
+    names = sorted(n for n, m in inspect.getmembers(cls, lambda m: isinstance(m, property)) if not n.startswith("_") and n not in CONTEXTUAL)
+    try:
+        other, _kw = build_instance(cls, random.Random(rng.random()))
+        holder = Element.from_tag("<office:text/>")
+        if other is not None:
+            first = Element.from_tag(other.serialize())
+            for el in [first, *first.get_elements("descendant::*")]:
+                if el.get_attribute("xml:id") is not None:
+                    el.del_attribute("xml:id")      # two equal xml:id in one tree are not well formed
+            holder.append(first)
+        holder.append(Element.from_tag(xml))
+        target = Element.from_tag(holder.serialize()).children[-1]
+    except Exception as ex:  # noqa: BLE001
+        return [{"name": "<context>", "alone": "built", "inside": "exc:" + type(ex).__name__}]
+    out = []
+    for n in names:
+        try:
+            a = _show(getattr(alone, n))
+        except Exception as ex:  # noqa: BLE001
+            a = "exc:" + type(ex).__name__
+        try:
+            b = _show(getattr(target, n))
+        except Exception as ex:  # noqa: BLE001
+            b = "exc:" + type(ex).__name__
+        if a != b:
+            out.append({"name": n, "alone": a, "inside": b})
+    return out
+
+
 def record(cname: str, seed: int) -> dict:
     from odfdo import Element
 
@@ -177,6 +227,27 @@ def record(cname: str, seed: int) -> dict:
             return rec
         rec["kwargs"] = {k: repr(v)[:40] for k, v in kwargs.items()}
         rec["tag"] = obj.tag
+        # every argument that has a public property of its own name must be readable through it (str / bool / int values)
+        seen = []
+        pnames = {n for n, m in inspect.getmembers(cls, lambda m: isinstance(m, property))}
+        for k, v in kwargs.items():
+            # (strings and booleans are judged through the generic properties below, with their codec; 0 and 1 are
+            # the defaults of counters and levels and may legitimately read back as None)
+            if k in pnames and isinstance(v, int) and not isinstance(v, bool) and v >= 2:
+                try:
+                    got = getattr(obj, k)
+                except Exception as ex:  # noqa: BLE001
+                    got = "exc:" + type(ex).__name__
+                if not (got == v or str(got) == str(v)):
+                    seen.append({"arg": k, "given": repr(v)[:60], "read": repr(got)[:60]})
+        rec["args_read"] = seen
+        if rng.random() < 0.3 and cname not in ("Table", "Row", "Column", "Cell", "NamedRange"):
+            # mixed content: white space alone between two children is content (XML infoset), whatever the class
+            a, b = Element.from_tag("<text:span>a</text:span>"), Element.from_tag("<text:span>b</text:span>")
+            obj.append(a)
+            a.tail = rng.choice([" ", "  ", "\n "])
+            obj.append(b)
+            rec["mixed"] = True
         xml = obj.serialize()
         try:
             canon = c14n(xml)
@@ -225,6 +296,7 @@ def record(cname: str, seed: int) -> dict:
                     entry["after_set"] = "exc:" + type(ex).__name__
             props.append(entry)
         rec["props"] = props
+        rec["context"] = context_reads(cls, xml, back, rng)
     except Exception as ex:  # noqa: BLE001
         rec["exc"] = f"{type(ex).__name__}: {ex}"[:120]
     return rec
